@@ -147,6 +147,8 @@ type Frame struct {
 	selfTerm string
 	parent   *Frame
 	recovered bool
+	inPanicSim bool
+	recoveredVal string
 	private  []*Loc // non-escaping local cells: untouched by callees
 	privateAllocs []*ssa.Alloc
 	siteKeys map[ssa.Instruction]string
@@ -655,4 +657,59 @@ func (e *Enc) addGroup(kind, detail, reach string, names, conds []string, pos to
 		ch.Bounds = parent.Bounds
 		parent.Children = append(parent.Children, ch)
 	}
+}
+
+// fop maps a float operation to its SMT term: the FloatingPoint theory, or -
+// under `abstractfloats` - an uninterpreted function shared by code and spec.
+func (e *Enc) fop(op string, args ...string) string {
+	abs := e.con != nil && e.con.AbstractFloats
+	a := strings.Join(args, " ")
+	switch op {
+	case "add", "sub", "mul", "div":
+		if abs {
+			return "(f" + op + " " + a + ")"
+		}
+		return "(fp." + op + " RNE " + a + ")"
+	case "neg":
+		if abs {
+			return "(fneg " + a + ")"
+		}
+		return "(fp.neg " + a + ")"
+	case "lt":
+		if abs {
+			return "(flt " + a + ")"
+		}
+		return "(fp.lt " + a + ")"
+	case "leq":
+		if abs {
+			return "(fle " + a + ")"
+		}
+		return "(fp.leq " + a + ")"
+	case "gt":
+		if abs {
+			return "(flt " + args[1] + " " + args[0] + ")"
+		}
+		return "(fp.gt " + a + ")"
+	case "geq":
+		if abs {
+			return "(fle " + args[1] + " " + args[0] + ")"
+		}
+		return "(fp.geq " + a + ")"
+	case "eq":
+		if abs {
+			return "(feq " + a + ")"
+		}
+		return "(fp.eq " + a + ")"
+	case "i2f":
+		if abs {
+			return "(i2f " + a + ")"
+		}
+		return "((_ to_fp 11 53) RNE (to_real " + a + "))"
+	case "f2i":
+		if abs {
+			return "(f2i " + a + ")"
+		}
+		return "(to_int (fp.to_real (fp.roundToIntegral RTZ " + a + ")))"
+	}
+	panic("fop " + op)
 }
